@@ -1,8 +1,15 @@
 (* Sequential runs of the command ring: every operation keeps the state well-formed, the rendered
    memory shows exactly the queue (headers) and zero outside the unconsumed region, unblock
    answers false when nobody died, correlation ids never repeat. *)
-Require Import V.Base.MachineInt V.Generated.GenConsts V.Model.LogBase V.Model.Ring V.Spec.Fifo
-               V.Oracle.C06Oracle V.Proofs.RingArith V.Proofs.RingSeq V.Proofs.RingRender.
+Require Import V.Base.MachineInt.
+Require Import V.Generated.GenConsts.
+Require Import V.Model.LogBase.
+Require Import V.Model.Ring.
+Require Import V.Spec.Fifo.
+Require Import V.Oracle.C06Oracle.
+Require Import V.Proofs.RingArith.
+Require Import V.Proofs.RingSeq.
+Require Import V.Proofs.RingRender.
 From Coq Require Import ZifyBool Lia.
 Open Scope Z_scope.
 
